@@ -5,7 +5,7 @@ From GD Require Import Base.Prelude Model.Strings Model.Buffer Model.Unreal2Str 
 From GD Require Import Model.Net Model.Valve Model.ValveShow Model.Master Model.Settings Model.Quake Model.Unreal2.
 From GD Require Import Spec.Rand Spec.ValveSpec Spec.ValveGen Spec.CaseEnc Spec.MasterSpec Spec.QuakeSpec Spec.Unreal2Spec Spec.GamespySpec Spec.GamesSpec Spec.MinecraftSpec.
 From GD Require Import Model.View Gen.CommonImpls Model.ViewInst Spec.ViewSpec.
-From GD Require Import Model.Dispatch Gen.ModulesTable Gen.GamesTable Model.IdCheck Model.Gamespy Model.Games Model.Minecraft.
+From GD Require Import Model.Dispatch Gen.ModulesTable Gen.GamesTable Model.IdCheck Model.Gamespy Model.Games Model.Minecraft Model.Cli.
 
 Definition rd_u8 : R N := read_uint true 1.
 Definition rd_u16 : R N := read_uint true 2.
@@ -617,6 +617,19 @@ Definition case_spec_real : R bytes :=
   let answered := if tcp then (match n_cur n with Some (_, false) => 1 | _ => 0 end) else consumed in
   ret (str "timeouts=" ++ show_N (recvs_of n - answered)).
 
+(* family 19: the CLI's XML output judged against the value it printed as JSON:
+   tree of the JSON output, bytes of the XML output *)
+Definition case_cli_xml : R bytes :=
+  let* v := rd_tree 16 in
+  let* actual := rd_bytes32 in
+  let parsed := xml_parse actual in
+  let expected_tree := XElem (str "data") (xtree None v) in
+  ret (str "render=" ++ (if bytes_eqb (xml_document v) actual then str "same" else str "diff")
+       ++ str ";parse=" ++ (match parsed with Some _ => str "ok" | None => str "malformed" end)
+       ++ str ";faithful=" ++ (match parsed with
+                               | Some t => if xequiv 64 t expected_tree then str "yes" else str "no"
+                               | None => str "no" end)).
+
 Definition run_case_R : R bytes :=
   let* fam := rd_u8 in
   if fam =? 1 then case_bufops
@@ -632,6 +645,7 @@ Definition run_case_R : R bytes :=
   else if fam =? 15 then case_view
   else if fam =? 16 then case_master
   else if fam =? 18 then case_settings
+  else if fam =? 19 then case_cli_xml
   else if fam =? 20 then case_quake
   else if fam =? 22 then case_unreal2
   else if fam =? 30 then case_idcheck
